@@ -52,8 +52,13 @@ func saveFileExtensionHandlers(handlers map[string]string) error {
 	if err != nil {
 		return fmt.Errorf("couldn't json-encode file extension handlers: %w", err)
 	}
-	if err := os.WriteFile(octosqlFileExtensionHandlersFile, data, 0644); err != nil {
+	// Write to a temporary file and rename, so that an interrupted write never leaves a truncated file behind.
+	tmpPath := octosqlFileExtensionHandlersFile + ".tmp"
+	if err := os.WriteFile(tmpPath, data, 0644); err != nil {
 		return fmt.Errorf("couldn't write file extension handlers to file: %w", err)
+	}
+	if err := os.Rename(tmpPath, octosqlFileExtensionHandlersFile); err != nil {
+		return fmt.Errorf("couldn't move file extension handlers file into place: %w", err)
 	}
 	return nil
 }
